@@ -316,22 +316,26 @@ class ParserScenario:
         st.heap[loc][('f', None, LOC.index('input'))] = named(st, 'locname', 'Option<String>')
         st.heap[ro][('f', None, RDR.index('location'))] = ObjV(loc)
         info.update(line0=line0, col0=col0, ro=ro, loc=loc, rref=rref, by=by)
-        if not arbitrary:
-            # fields the scenario does not know (added by an edit) get the value Reader::new gives them
-            known = {RDR.index(x) for x in ('bytes', 'current_byte', 'location', 'eof')}
-            if len(RDR) > len(known):
-                try:
-                    F = ex.find(r'^reader::<impl at [^>]*>::new$')
-                    s0 = State(); ex.new_frame(s0, F, [named(s0, 'R', 'R'), named(s0, 'NAME', 'Option<String>')])
-                    done = [d for d in ex.run(s0) if d.status == 'returned']
-                    if len(done) == 1:
-                        r = obj(done[0], done[0].ret)
-                        for i in range(len(RDR)):
-                            v = done[0].heap[r.oid].get(('f', None, i))
-                            if i not in known and isinstance(v, (BV, BoolV)) and cval(v.t) is not None:
-                                st.heap[ro][('f', None, i)] = v
-                except Exception:
-                    pass
+        # Fields the scenario does not know (added by an edit to Reader) get the value Reader::new gives them - in the
+        # arbitrary pre-state as well: the representation invariant of the scenario speaks about the four known fields
+        # only, and an unknown field left free would let the executor start from states no history reaches. That such a
+        # field is the same again after every complete value (no hidden state that carries over from value to value) is
+        # the obligation family tok.hidden_state.
+        known = {RDR.index(x) for x in ('bytes', 'current_byte', 'location', 'eof')}
+        info['unknown_fields'] = {}
+        if len(RDR) > len(known):
+            try:
+                F = ex.find(r'^reader::<impl at [^>]*>::new$')
+                s0 = State(); ex.new_frame(s0, F, [named(s0, 'R', 'R'), named(s0, 'NAME', 'Option<String>')])
+                done = [d for d in ex.run(s0) if d.status == 'returned']
+                if len(done) == 1:
+                    r = obj(done[0], done[0].ret)
+                    for i in range(len(RDR)):
+                        v = done[0].heap[r.oid].get(('f', None, i))
+                        if i not in known and isinstance(v, (BV, BoolV)) and cval(v.t) is not None:
+                            st.heap[ro][('f', None, i)] = v; info['unknown_fields'][i] = (RDR[i], v)
+            except Exception:
+                pass
         return st, info
 
     # -- denotation of the implementation's value
@@ -661,6 +665,7 @@ DESC = {
     'tok.nopanic': 'no panic path (overflow, unwrap, slicing) is reachable in the tokenizer',
     'tok.no_io_error': 'without a read failure the tokenizer never reports IoError',
     'tok.io_error': 'a read failure at any position is returned as the unrecoverable IoError - never end of input, never a recoverable error - and the reader does not mark end of input',
+    'tok.hidden_state': 'a Reader field beyond the four the scenario knows (added by an edit) has, after every complete value, the value it had before the call: no state carries over from value to value (candidates are confirmed by feeding the value 300 / 3000 times)',
     'tok.location': 'line/column after the call = fold of (LF -> line+1, column 1; other -> column+1) over exactly the bytes pulled from the reader',
 }
 
@@ -765,6 +770,17 @@ def _task(args):
                 if ok_: f['ok'] += 1
                 else: cand('tok.progress', 'error-without-progress', 'an error is returned without consuming a byte', m, d)
             else: f['ok'] += 1
+        # ---- no hidden state: a Reader field the scenario does not know is, after a complete value, what it was before
+        if info.get('unknown_fields') and kind == 'value' and ('tok.value' in want or 'tok.consumed' in want):
+            f = fam('tok.hidden_state'); f['obl'] += 1; f['wit'] += 1
+            diff = []
+            for i_, (fname, v0) in info['unknown_fields'].items():
+                v1 = d.heap[ro].get(('f', None, i_))
+                if v1 is None or not hasattr(v1, 't'): continue
+                ok_, m = ex.valid(d, v1.t == v0.t)
+                if not ok_: diff.append((fname, m))
+            if not diff: f['ok'] += 1
+            else: cand('tok.hidden_state', 'hidden-state:' + diff[0][0], f'after a complete value the reader field `{diff[0][0]}` differs from its value before the call (state that carries over from value to value)', diff[0][1], d, {'consumed': cbn + reads})
         # ---- reference
         ref = Ref(ex, d.pc)
         for p, rkind, j, rden in ref.value(PC(d.pc), E, 0):
@@ -861,13 +877,13 @@ def tokenizer(ctx, n, want, label, classes=None, variants=('cb', 'nocb', 'eof'),
         for s in r['summaries']: run.summaries[s] = True
         for b in r['bodies']: run.functions[b] = True
         for name, c in r['fam'].items():
-            if name not in want and name != 'tok.io_error': continue
+            if name not in want and name not in ('tok.io_error', 'tok.hidden_state'): continue
             f = run.family(name, DESC[name]); f.obligations += c['obl']; f.discharged += c['ok']; f.witnesses += c['wit']; f.paths += c['obl']
             f.bounds = (f.bounds + '; ' if f.bounds else '') + label if label not in f.bounds else f.bounds
         for s in r['samples']:
             if 'tok.value' in want: run.family('tok.value', DESC['tok.value']).add_sample(s)
         for c in r['cands']:
-            if c['family'] in want or c['family'] == 'tok.io_error':
+            if c['family'] in want or c['family'] in ('tok.io_error', 'tok.hidden_state'):
                 cands.append(Candidate(c['family'], c['role'], c['text'], c['model'], unmodelled=c['unmodelled']))
     for name in ('tok.nopanic',):
         if name in want:
@@ -914,9 +930,38 @@ def den_to_py(den):
     raise ValueError(den)
 
 
+def replay_hidden_state(ctx, c):
+    """a field that changes over a complete value is only a defect when the change accumulates into different behaviour:
+    the model's value text repeated many times must give that many equal rows"""
+    from .cli import run_driver, show
+    data = bytes.fromhex(c.model.get('input_hex', ''))
+    exp, complete = concrete_reference(data)
+    vals = [v for k, v in exp if k == 'value']
+    if not vals: c.status = 'inconclusive'; c.unmodelled = 'no conforming value in the model input'; return
+    # the text of the first value: cut the input where the reference ends it
+    ex = Exec({}); ref = Ref(ex, []); E = [z3.BitVecVal(b, 8) for b in data]
+    rs = list(ref.value([], E, 0)); j = rs[0][2] if len(rs) == 1 else len(data)
+    tok = data[:j].strip() or data.strip()
+    c.status = 'inconclusive'; c.unmodelled = 'a reader field changes over a value, but 3000 repetitions of the value behave like one (a statistic, not state)'
+    for reps in (300, 3000):
+        for sep in (b' ', b'\n', b''):
+            if sep == b'' and not tok.startswith((b'{', b'[', b'"')): continue
+            stream = sep.join([tok] * reps)
+            r = run_driver(ctx, ['--style', 'consise', '--on-error', 'stderr'], stream, timeout=60)
+            rows = show(r['stdout']).splitlines()
+            first = rows[0] if rows else None
+            if len(rows) != reps or any(x != first for x in rows) or r['stderr'] or str(r['result']).startswith(('err', 'panic', 'crash', 'timeout')):
+                c.status = 'reproduced'; c.unmodelled = None
+                c.replay = {'stdin': f'{tok!r} repeated {reps} times separated by {sep!r}', 'expected_rows': reps, 'actual_rows': len(rows), 'first_differing_row': next((i for i, x in enumerate(rows) if x != first), None),
+                            'result': r['result'], 'stderr': show(r['stderr'])[:200]}
+                return
+
+
 def replay_tokenizer(ctx, cands):
     from .cli import run_driver, show
     for c in cands:
+        if c.family == 'tok.hidden_state':
+            replay_hidden_state(ctx, c); continue
         data = bytes.fromhex(c.model.get('input_hex', ''))
         env = {}
         if c.model.get('fail_at') is not None:
